@@ -335,7 +335,7 @@ def r7_widening(rep, facts, rid='C11/R7'):
                     it = FloatRec(Evaluator(facts), {wide})
                     it.checked_arith = True      # a lossy cast on the way (`v as i32`) is a panic of the evaluation
                     try:
-                        it.val(b['body'], {pn[0]: ('self',), pn[1]: v, '@assign': {}})
+                        it.run_body(b, {pn[0]: ('self',), pn[1]: v, '@assign': {}})
                     except EvalPanic as e:
                         bad.append(f'{v!r}: panics ({e})')
                         continue
